@@ -86,6 +86,16 @@ REFUSALS = {
     'add_symlink:joliet-duplicate': ('all', 'add_symlink', [], dict(symlink_path='/SYM.;1', rr_symlink_name='sym', rr_path='foo', joliet_path='/foo')),
     'rm_directory:udf-missing': ('udf', 'rm_directory', [], dict(iso_path='/DIR1', udf_path='/nodir')),
     'rm_directory:joliet-is-a-file': ('joliet', 'rm_directory', [], dict(iso_path='/DIR1', joliet_path='/foo')),
+    # a second entry with an existing Rock Ridge name (K69: only the ISO9660 identifiers used to be compared)
+    'add_fp:rr-name-duplicate': ('rr', 'add_fp', ['FILE', 4], dict(iso_path='/BAR.;1', rr_name='foo')),
+    'add_directory:rr-name-duplicate': ('rr', 'add_directory', [], dict(iso_path='/DIR2', rr_name='dir1')),
+    'add_directory:rr-name-of-a-file': ('rr', 'add_directory', [], dict(iso_path='/DIR2', rr_name='foo')),
+    'add_symlink:rr-name-duplicate': ('rr', 'add_symlink', [], dict(symlink_path='/SYM.;1', rr_symlink_name='foo', rr_path='dir1')),
+    'add_hard_link:rr-name-duplicate': ('rr', 'add_hard_link', [], dict(iso_old_path='/FOO.;1', iso_new_path='/LNK.;1', rr_name='foo')),
+    # a file mode outside 32 bits (K71: accepted, the next write failed)
+    'add_fp:file-mode-too-big': ('rr', 'add_fp', ['FILE', 4], dict(iso_path='/BAR.;1', rr_name='bar', file_mode=1 << 32)),
+    'add_fp:file-mode-negative': ('rr', 'add_fp', ['FILE', 4], dict(iso_path='/BAR.;1', rr_name='bar', file_mode=-1)),
+    'add_directory:file-mode-too-big': ('rr', 'add_directory', [], dict(iso_path='/DIR2', rr_name='dir2', file_mode=1 << 40)),
     # a Joliet / UDF path that names the root directory itself (K60: used to add an entry without a name)
     'add_fp:joliet-path-names-the-root': ('joliet', 'add_fp', ['FILE', 4], dict(joliet_path='/.')),
     'add_directory:udf-path-names-the-root': ('udf', 'add_directory', [], dict(udf_path='/x/..')),
